@@ -38,8 +38,8 @@ VARIABLES pc,      \* "hist" | "probed" | "emitted"
           result   \* abstract result of the probe: <<kind, tolerance class used>>
 vars == <<pc, hist, eps, store, legal, probe, result>>
 
-Loaders == {"netlist", "die", "alloc", "stog", "legal", "sliver"}   \* operations that load a design (set eps when unset)
-ReadsEps == {"netlist", "die", "alloc", "stog", "sliver"}       \* operations whose answer involves the tolerances
+Loaders == {"netlist", "die", "alloc", "stog", "legal", "sliver", "initalloc"}   \* operations that load a design (set eps when unset)
+ReadsEps == {"netlist", "die", "alloc", "stog", "sliver", "initalloc"}       \* operations whose answer involves the tolerances
 \* "undef" is the public call Rectangle.undefine_epsilon(): the next loader derives the tolerances afresh.
 \* "pads" (history only) loads a netlist made of terminals only: a design without any dimension, so it has nothing to derive
 \* the tolerances from and must leave them as they are (unset stays unset: the next loader sets them).  On the pinned tree
